@@ -1372,6 +1372,9 @@ class Xsd11Group(XsdGroup):
             return False
 
     def is_all_restriction(self, other: XsdGroup) -> bool:
+        if not self.has_occurs_restriction(other):
+            return False
+
         restriction_items = [x for x in self.iter_model()]
 
         base_items = [x for x in other.iter_model()]
